@@ -126,6 +126,24 @@ def gen_hilbert():
             raise Fail("guard `if self.order > MAX_ORDER` for %s not found" % point)
         return int(m.group(1))
 
+    # ---- segment_to_segment: the scaling factor
+    seg = fn_body(src, "segment_to_segment")
+    if seg is None:
+        raise Fail("fn segment_to_segment not found")
+    seg_nc = re.sub(r"//[^\n]*", "", seg)
+    if re.search(r"let\s+mut\s+f\s*=\s*\(n\s*/\s*width\)\.min\(f64::MAX\);", seg_nc):
+        seg_capped = True
+    elif re.search(r"let\s+mut\s+f\s*=\s*n\s*/\s*width;", seg_nc):
+        seg_capped = False
+    else:
+        raise Fail("segment_to_segment: initial factor is neither `(n / width).min(f64::MAX)` nor `n / width`")
+    if not re.search(r"let\s+width\s*=\s*max\s*-\s*min;\s*let\s+n\s*=\s*\(1_u64\s*<<\s*order\)\s*as\s+f64;", seg_nc):
+        raise Fail("segment_to_segment: `width = max - min; n = (1_u64 << order) as f64` not found")
+    if not re.search(r"while\s+n\s*<=\s*width\s*\*\s*f\s*\{\s*f\s*=\s*crate::nextafter\(f,\s*0\.0\);\s*\}", seg_nc):
+        raise Fail("segment_to_segment: `while n <= width * f { f = crate::nextafter(f, 0.0); }` not found")
+    if not re.search(r"\(f\s*\*\s*\(v\s*-\s*min\)\)\s*as\s+u64", seg_nc):
+        raise Fail("segment_to_segment: `(f * (v - min)) as u64` not found")
+
     out = HEADER.format(src=rel)
     out += "From Coq Require Import NArith List.\nImport ListNotations.\nOpen Scope N_scope.\n\n"
     out += "(* encode_2d_slow: BASE_PATTERN[config][quadrant], CONFIGURATION[config][quadrant] *)\n"
@@ -144,6 +162,8 @@ def gen_hilbert():
     out += "Definition lut3 : list N :=\n  [" + ";\n   ".join(";".join(str(x) for x in lut3[i:i + 8]) for i in range(0, 96, 8)) + "].\n"
     for v, h, k in m3:
         out += "Definition pdep3_%s : N * N := (%d, %d).\n" % (v, h, k)
+    out += "\n(* segment_to_segment: true: `let mut f = (n / width).min(f64::MAX)`; false: `let mut f = n / width` *)\n"
+    out += "Definition seg_factor_capped : bool := %s.\n" % ("true" if seg_capped else "false")
     out += "\n(* HilbertCurve::partition: `if self.order > MAX_ORDER` *)\n"
     out += "Definition max_order_2d : N := %d.\n" % max_order("Point2D")
     out += "Definition max_order_3d : N := %d.\n" % max_order("Point3D")
